@@ -88,6 +88,43 @@ theorem reset_hard (d d' : Db) (r : Option Ref) (hw : Sorted ltStr (keys d.ws.wo
         simpa [has] using this
       | some tb => simp [hn]
 
+theorem sorted_moveUntracked_aux (s tgt : Root) : ∀ (w acc : Root), Sorted ltStr (keys acc) →
+    Sorted ltStr (keys (w.foldl (fun acc nt =>
+      if has s nt.1 || has tgt nt.1 then acc else putTable acc nt.1 nt.2) acc))
+  | [], _, h => h
+  | nt :: rest, acc, h => by
+    rw [List.foldl_cons]
+    apply sorted_moveUntracked_aux s tgt rest
+    split
+    · exact h
+    · exact sorted_put strictTotal_ltStr acc nt.1 nt.2 h
+
+/-- `MoveUntrackedTables` keeps the root's table list sorted -/
+theorem sorted_moveUntracked (w s tgt : Root) (ht : Sorted ltStr (keys tgt)) :
+    Sorted ltStr (keys (moveUntracked w s tgt)) :=
+  sorted_moveUntracked_aux s tgt w tgt ht
+
+/-- **reset_hard_idempotent (working root).**  A second `reset --hard` to the same target changes
+nothing: re-applying `MoveUntrackedTables` to the result (whose staged root is now the target)
+yields the same tables — the untracked ones survive both times, everything else is the target's. -/
+theorem reset_hard_idempotent_root (w s tgt : Root) (hw : Sorted ltStr (keys w)) (ht : Sorted ltStr (keys tgt))
+    (n : String) :
+    get (moveUntracked (moveUntracked w s tgt) tgt tgt) n = get (moveUntracked w s tgt) n := by
+  rw [get_moveUntracked _ _ _ (sorted_moveUntracked w s tgt ht), get_moveUntracked w s tgt hw]
+  cases hg : get w n with
+  | none =>
+    simp only
+    cases hgt : get tgt n <;> simp [has, hgt]
+  | some tb =>
+    simp only
+    by_cases hc : (has s n || has tgt n) = true
+    · simp only [hc, if_true]
+      cases hgt : get tgt n <;> simp [has, hgt]
+    · simp only [hc]
+      have : has tgt n = false := by
+        cases hh : has tgt n <;> simp_all
+      simp [this]
+
 /-- the property's wording "a hard reset makes working and staged equal to the target commit" -/
 def reset_hard_full : Prop :=
   ∀ (d d' : Db), d.resetHard none = (.ok, d') → d'.ws.working = d'.headRoot
